@@ -76,3 +76,11 @@ Theorem C09_padding_from_source :
   (forall n pos, 1 <= n -> Gen.Sizes.align_resolution_size n pos = (n - pos mod n) mod n).
 Proof. split. exact SizesTable.align_rule_from_source. exact SizesTable.resolution_size_spec. Qed.
 Print Assumptions C09_padding_from_source.
+
+(* ---- the position bookkeeping of the SOURCE, path by path (Gen/Book.v, regenerated on every run; Proofs/Book.v): in resolve_labels,
+   both compression passes, the pseudo-instruction pass, resolve_aligns and resolve_immediates every appended item is paired with exactly
+   one `position += <its size>` and nothing else advances the position -- what the pass model's running position assumes *)
+From BB Require Gen.Book Proofs.Book.
+Theorem C09_position_bookkeeping_from_source : Proofs.Book.bookkeeping_ok = true.
+Proof. exact Proofs.Book.bookkeeping_from_source. Qed.
+Print Assumptions C09_position_bookkeeping_from_source.
